@@ -153,6 +153,14 @@ class C14:
                         if trusted:
                             rt = S.run(["clcommitcpk %s %s %s %s" % (suite, zl(x.cpk), zl([m ^ 2 for m in msgs]), il(U))], expect="ok", label="triv:othercommit")[0]
                             mm({"Ct": [rt.z(0), rt.z(1)]}, "other-trusted-commitment")
+                        else:
+                            # the holder made NO proof for a trusted commitment, the issuer demands one (trusted commitment and
+                            # commitment key supplied): the missing sub-proof must not count as a passed check
+                            rt = S.run(["clcommitcpk %s %s %s %s" % (suite, zl(x.cpk), zl(msgs), il(U))], expect="ok", label="triv:othercommit")[0]
+                            if rt.status == "OK":
+                                Ctm = [rt.z(0), rt.z(1)]
+                                lines.append(zkver_line(x, f, Ct=Ctm, cpk=x.cpk)); labs.append("mismatch:trusted-commitment-demanded-but-no-sub-proof")
+                                lines.append(blindsign_line(x, f, Ct=Ctm)); labs.append("gate:trusted-commitment-demanded-but-no-sub-proof")
                         stats["mismatches"] += len(lines)
                         S.run(lines, expect=[reject if l.startswith("mismatch") else refused for l in labs], label=labs)
                         # field-wise edits of the serialized proof
@@ -329,6 +337,23 @@ class C16:
                             S.run([ver_line(rp.json(0), a, b)], expect=reject, label="out-of-range-proof-rejected")
                         elif rp.status not in ("PANIC",):
                             P.fail(S, "out-of-range-prover", "unexpected outcome " + rp.status, [str(v)])
+            # one-sided transplant: an honest proof for the interval widened by one on ONE side, moved onto the narrower interval by
+            # shifting only E_a_1 (resp. E_b_1) by g^(-2^T): the other half stays genuinely valid, one square proof is stale
+            for (a, b) in ((1000, 1020), (7, 47), (2**64, 2**64 + 2**20 + 5)):
+                w = b - a
+                if math.isqrt(w) != math.isqrt(w + 1) or w.bit_length() != (w + 1).bit_length(): continue
+                T = range_T(a, b); gi = pow(g, -1, n); shift = pow(gi, 1 << T, n)
+                for side, (y, lo, hi) in (("a", (a - 1, a - 1, b)), ("b", (b + 1, a, b + 1))):
+                    if lo < 0: continue
+                    r = rng.getrandbits(x.P["ln"]) | (1 << (x.P["ln"] - 1))
+                    E = pow(g, y, n) * pow(h, r, n) % n
+                    rp = S.run(["clrpprove %s %d %s %d %d %d %d %d" % (suite, y, zl([E, r]), g, h, n, lo, hi)], expect="ok", label="triv:prove-wider")[0]
+                    if rp.status != "OK": continue
+                    fd = json.loads(json.dumps(rp.json(0)))
+                    leaf = fd["proof_of_tolerance"]["E_%s_1" % side]
+                    leaf["value"] = format(int(leaf["value"], int(leaf["radix"])) * shift % n, "x"); leaf["radix"] = 16
+                    stats["transplants"] += 1
+                    S.run([ver_line(fd, a, b)], expect=reject, label="F8:one-sided-transplant|side=%s width=%d" % (side, w))
             # F11: drive the prover into the gap between the old prover bound 2^(T+t+l) b - 1 and the verifier's bound: replay an
             # honest run's draws with w of proof_large_i_a forced to 2^(T+t+l) b - 2^(T-1); the proof returned must still verify
             a, b = 0, 2**256 - 1; v = 12345; T = range_T(a, b)
@@ -470,7 +495,8 @@ class C18:
     def generate(S, tier):
         P = _p(); Q = _q(); rng = S.rng
         stats = {"keys": 0, "bases_checked": 0, "random_calls": 0}
-        plan = [("toy", 6 if tier == "quick" else 60)] + ([("cl1024", 1)] if tier != "quick" else [])
+        # toy2: a suite whose ln is not 2 * SECPARAM (the prime length must come from SECPARAM)
+        plan = [("toy", 6 if tier == "quick" else 60), ("toy2", 2 if tier == "quick" else 12)] + ([("cl1024", 1)] if tier != "quick" else [])
         for suite, nkeys in plan:
             sp = Q.SUITE_P[suite]["SECPARAM"]
             for k in range(nkeys):
@@ -510,11 +536,12 @@ class C18:
                 if rk.status == "OK" and ([rk.z(1), rk.z(2), rk.z(3)] != [N, b, c] or rk.toks[4] != "1"): P.fail(S, "pk-codec", "public key changed by a codec", [str(N)])
                 rs = S.run(["clskcodec %s %s" % (suite, zl([p, q]))], expect="ok", label="sk-codec")[0]
                 if rs.status == "OK" and ([rs.z(1), rs.z(2)] != [p, q] or rs.toks[3] != "1"): P.fail(S, "sk-codec", "secret key changed by a codec", [str(N)])
-                if k < 2 and suite == "toy":
+                if k < 2 and suite in ("toy", "toy2"):
                     # a commitment key with its own modulus
                     ro = S.run(["clcpk %s N 2" % suite], expect="ok", label="cpk(own modulus)")[0]
                     if ro.status == "OK":
                         N2, h2 = ro.zl(0)[0], ro.zl(0)[1]
+                        if N2.bit_length() not in (2 * sp + 1, 2 * sp + 2): P.fail(S, "cpk-structure", "own modulus of the commitment key has %d bits: not a product of two (SECPARAM+1)-bit primes" % N2.bit_length(), [str(N2)])
                         for v in [h2] + ro.zl(0)[2:]:
                             if not (1 < v < N2) or math.gcd(v, N2) != 1: P.fail(S, "cpk-structure", "commitment-key element outside (1, N) or not coprime", [str(N2)])
             # malformed key octets: only lengths 3*ln + k*ln are accepted, anything else is refused (panic)
@@ -585,7 +612,8 @@ class C19:
                 N = x.pk[0]; b = x.pk[1]; ln = x.P["ln"]
                 msgs = [Q.rmsg(rng) for _ in range(n)]
                 sig = Q.sign(S, x, msgs)
-                subsets = list(Q.all_subsets(n, nonempty=True)) if (suite == "toy" and tier != "quick") else [[0], list(range(n))][: (2 if n > 1 else 1)]
+                # ALL non-empty subsets (non-prefix hidden sets such as [1], [0, 2] index the blinding vectors differently)
+                subsets = list(Q.all_subsets(n, nonempty=True)) if suite == "toy" else [[1], list(range(n))]
                 for U in subsets:
                     for trusted in (False, True):
                         f = issue(S, x, msgs, U, trusted, label="triv:issue")
